@@ -557,3 +557,79 @@ M('c16_broadcast_keeps_sending', ['C16'], ['C16-R4'], 'broadcast() keeps sending
   (LIB, '''            if self.custom_broadcast_backlog() == 0 {
                 break;
             }''', ''))
+
+# ---------------------------------------------------------------- C17
+M('c17_accept_after_sender_update', ['C17'], ['C17-R2'], 'the sender is recorded before checking that the datagram is addressed to us',
+  (LIB, '''        if !self.accept_payload(&header) {
+            #[cfg(feature = "tracing")]
+            tracing::trace!("Payload not accepted");
+
+            return Ok(());
+        }
+''', ''),
+  (LIB, '''        let Header {
+            src,
+            src_incarnation,
+            dst: _,
+            message,
+        } = header;
+''', '''        let accepted = self.accept_payload(&header);
+        let Header {
+            src,
+            src_incarnation,
+            dst: _,
+            message,
+        } = header;
+'''),
+  (LIB, '''        // But dead members are ignored. At least until the member
+        // list gets reaped.
+        if !sender_is_active {''', '''        if !accepted {
+            return Ok(());
+        }
+        // But dead members are ignored. At least until the member
+        // list gets reaped.
+        if !sender_is_active {'''))
+M('c17_apply_while_decoding', ['C17'], ['C17-R2'], 'members are applied one by one while decoding: a truncated list leaves a trace',
+  (LIB, '''                self.updates_buf.push(
+                    self.codec
+                        .decode_member(&mut data)
+                        .map_err(|e| Error::Decode(Box::new(e)))?,
+                );''', '''                let m = self
+                    .codec
+                    .decode_member(&mut data)
+                    .map_err(|e| Error::Decode(Box::new(e)))?;
+                self.apply_update(m.clone(), true, &mut runtime)?;
+                self.updates_buf.push(m);'''))
+M('c17_probe_cleared_on_bad_packet', ['C17'], ['C17-R2'], 'a malformed packet resets the probe state',
+  (LIB, '''        if remaining == 1 || (header.message == Message::Announce && remaining > 0) {
+            return Err(Error::MalformedPacket);''', '''        if remaining == 1 || (header.message == Message::Announce && remaining > 0) {
+            self.probe.clear();
+            return Err(Error::MalformedPacket);'''))
+M('c17_rng_touched_on_reject', ['C17'], ['C17-R2'], 'data from ourselves advances the generator',
+  (LIB, '''        if header.src == self.identity || header.src.addr() == self.identity.addr() {
+            return Err(Error::DataFromOurselves);''', '''        if header.src == self.identity || header.src.addr() == self.identity.addr() {
+            let _ = self.members.next(&mut self.rng);
+            return Err(Error::DataFromOurselves);'''))
+M('c17_updates_buf_not_cleared', ['C17'], ['C17-R2'], 'updates decoded from a previously rejected datagram are applied with the next one',
+  (LIB, '        self.updates_buf.clear();\n        if remaining >= 2', '        if remaining >= 2'))
+M('c17_change_identity_resets_first', ['C17', 'C10'], ['C17-R2'], 'change_identity with the same identity still resets the instance',
+  (LIB, '''        if self.identity == new_id {
+            Err(Error::SameIdentity)''', '''        if self.identity == new_id {
+            self.reset();
+            Err(Error::SameIdentity)'''))
+M('c17_accept_any_announce', ['C17', 'C09'], ['C17-R3'], 'Announce accepted whatever its destination',
+  (LIB, '''            || (header.message == Message::Announce
+                // Then we accept it if DST is one of our _possible_
+                // identities
+                && self.identity.addr() == header.dst.addr())''', '''            || header.message == Message::Announce'''))
+M('c17_accept_by_addr_for_all_kinds', ['C17'], ['C17-R3'], 'any datagram for another identity of our address is accepted',
+  (LIB, '''            || (header.message == Message::Announce
+                // Then we accept it if DST is one of our _possible_
+                // identities
+                && self.identity.addr() == header.dst.addr())''', '''            || self.identity.addr() == header.dst.addr()'''))
+M('c17_hash_ordering', ['C17'], ['C17-R1', 'C06-R1'], 'member selection goes through a randomly seeded hash set',
+  (MEMBER, '''        // Basic reservoir sampling
+        let mut num_chosen = 0;''', '''        // Basic reservoir sampling
+        #[cfg(feature = "std")]
+        let _seen: std::collections::HashSet<usize> = std::collections::HashSet::new();
+        let mut num_chosen = 0;'''))
